@@ -49,6 +49,20 @@ impl LpInnerSolver for HighsSolver {
     /// LPs are tiny (single-worker resource groups), so there is no
     /// scheduler-scale performance problem to trade off here.
     fn solve(self) -> Option<(Self::Solution, f64)> {
+        #[cfg(feature = "verif")]
+        if crate::verif::sim_clock_active() {
+            // Same solve, single-threaded (many simulations run side by side)
+            let mut model = self.0.optimise(Sense::Maximise);
+            model.set_option("threads", 1);
+            model.set_option("parallel", "off");
+            let solved_model = model.solve();
+            if !matches!(solved_model.status(), HighsModelStatus::Optimal) {
+                return None;
+            }
+            let solution = solved_model.get_solution();
+            let objective_value = solved_model.objective_value();
+            return Some((solution, objective_value));
+        }
         let solved_model = self.0.optimise(Sense::Maximise).solve();
         if !matches!(solved_model.status(), HighsModelStatus::Optimal) {
             return None;
@@ -65,6 +79,11 @@ impl LpInnerSolver for HighsSolver {
     fn solve_bounded(self, time_limit: Duration) -> Option<(Self::Solution, bool)> {
         let mut model = self.0.optimise(Sense::Maximise);
         model.set_option("time_limit", time_limit.as_secs_f64());
+        #[cfg(feature = "verif")]
+        if crate::verif::sim_clock_active() {
+            model.set_option("threads", 1);
+            model.set_option("parallel", "off");
+        }
         let solved_model = model.solve();
 
         let is_optimal = match solved_model.status() {
